@@ -143,7 +143,34 @@ func (s *ssTicketStore) serialize() error {
 	if err != nil {
 		return err
 	}
-	return os.WriteFile(s.filePath, jsonStr, 0o600)
+	return writeFileAtomic(s.filePath, jsonStr)
+}
+
+// writeFileAtomic replaces the file at fPath with data by writing a temporary
+// file in the same directory and renaming it into place, so that a crash or
+// a full disk midway never leaves a truncated ticket store behind (which
+// would fail to parse, and prevent the client from starting).
+func writeFileAtomic(fPath string, data []byte) error {
+	f, err := os.CreateTemp(path.Dir(fPath), path.Base(fPath)+".tmp")
+	if err != nil {
+		return err
+	}
+	tmpPath := f.Name()
+
+	_, err = f.Write(data)
+	if err == nil {
+		err = f.Sync()
+	}
+	if cerr := f.Close(); err == nil {
+		err = cerr
+	}
+	if err == nil {
+		err = os.Rename(tmpPath, fPath)
+	}
+	if err != nil {
+		_ = os.Remove(tmpPath)
+	}
+	return err
 }
 
 func loadTicketStore(stateDir string) (*ssTicketStore, error) {
